@@ -162,4 +162,29 @@ def weightedAverage (d : List (Rat × Rat)) : Option (Rat × Rat) :=
     let sum3 := sum (d.map (fun p => (p.2 - wavg) ^ 2))
     some (avg, n / (n - 1) / ws / ws * (sum1 - 2 * avg * sum2 + avg ^ 2 * sum3))
 
+/-! ### DataPoint (src/Statistics.cpp §4): the ordering operators compare the *value* only -/
+
+structure DP where
+  value : Rat
+  weight : Rat
+  deriving DecidableEq, Repr
+
+/-- `operator<(DataPoint, DataPoint)` -/
+def dpLt (a b : DP) : Bool := decide (a.value < b.value)
+/-- `operator>` -/
+def dpGt (a b : DP) : Bool := decide (a.value > b.value)
+/-- `operator==`: equal values; the weights are not looked at -/
+def dpEq (a b : DP) : Bool := decide (a.value = b.value)
+
+/-- `std::sort(data.begin(), data.end())` (as in `Perform_KDE`) orders with `operator<`: the result is a
+    permutation sorted by value (assumed behaviour of the standard library; the relative order of points with
+    equal values is unspecified — `std::sort` is not stable — and is not part of the model's claim). -/
+def sortDP (l : List DP) : List DP := l.mergeSort (fun a b => !dpLt b a)
+
+/-- `std::sort(…, std::greater<DataPoint>())` orders with `operator>` -/
+def sortDPDesc (l : List DP) : List DP := l.mergeSort (fun a b => !dpGt b a)
+
+/-- `std::count(data.begin(), data.end(), x)` counts with `operator==` -/
+def countDP (l : List DP) (x : DP) : Nat := (l.filter (fun a => dpEq a x)).length
+
 end Lp.C19
